@@ -46,7 +46,7 @@ func init() {
 		Families: func(tier string) []Family {
 			return advFamilies(tier, advCfg{txVariants: advTxVariants, annVariants: advAnnVariants},
 				scn.Flags{Blocks: true, Time: true, Restart: true, MaxTime: 2, MaxBlocks: 3, NoCsvJump: true, NoWinJump: true},
-				mc.Bounds{MaxDepth: 9, MaxDev: 2, Budget: 100 * time.Second, NoCrash: true},
+				mc.Bounds{MaxDepth: 9, MaxDev: 2, Budget: 100 * time.Second, CrashAfterStore: true},
 				mc.Bounds{MaxDepth: 10, MaxDev: 3, Budget: 14 * time.Minute}, pickBackends(tier))
 		},
 		Oracles:      []scn.Oracle{oracleC01},
@@ -284,4 +284,68 @@ func c04Extra() ([]mc.Violation, map[string]any) {
 		c1[k] = v
 	}
 	return append(v1, v2...), c1
+}
+
+// "C12recovery" is not a property: it is the exploration that C12 runs as a sub-check (see c12Recovery).  The taker
+// roles against the scripted maker with claim invoices of the right and of a wrong amount, restarts and crash points
+// after durable writes; oracle = C01's predicate (of which only the invoice-amount clause is handed to C12).
+func init() {
+	register(&PropSpec{
+		ID: "C12recovery", Level: "model_checking",
+		Rule: "sub-check of C12",
+		Families: func(tier string) []Family {
+			return advFamilies(tier, advCfg{txVariants: []string{"ok"}, annVariants: []string{"ok", "inv_amount+1msat", "inv_amount-1sat"}},
+				scn.Flags{Blocks: true, Time: true, Restart: true, MaxTime: 2, MaxBlocks: 3, NoCsvJump: true, NoWinJump: true},
+				mc.Bounds{MaxDepth: 8, MaxDev: 3, Budget: 40 * time.Second, CrashAfterStore: true},
+				mc.Bounds{MaxDepth: 10, MaxDev: 3, Budget: 6 * time.Minute}, []bool{false})
+		},
+		Oracles: []scn.Oracle{oracleC01},
+		Outcome: advOutcome,
+	})
+}
+
+func TestC12recovery(t *testing.T) {
+	if os.Getenv("VERIF_PROP_EXPORT") == "" {
+		t.Skip("sub-check entry point")
+	}
+	runProp(t, "C12recovery")
+}
+
+// c12Recovery: "a swap initiator never pays more than agreed" also after a crash: the taker that refused a claim
+// invoice of a wrong amount, stopped and came back must refuse it again.
+func c12Recovery() ([]mc.Violation, map[string]any) {
+	out := fmt.Sprintf("%s/c12rec-%d.json", workDir, os.Getpid())
+	cmd := exec.Command(os.Args[0], "-test.run", "^TestC12recovery$", "-test.timeout", "0")
+	cmd.Env = append(os.Environ(), "VERIF_PROP_EXPORT="+out)
+	ob, err := cmd.CombinedOutput()
+	b, rerr := os.ReadFile(out)
+	cov := map[string]any{}
+	if rerr != nil {
+		cov["internal"] = []string{fmt.Sprintf("c12 recovery sub-check failed: %v\n%s", err, tail(string(ob), 3000))}
+		return nil, cov
+	}
+	_ = os.Remove(out)
+	var rep struct {
+		Violations []mc.Violation `json:"violations"`
+		States     int            `json:"states"`
+		Executions int            `json:"executions"`
+		Internal   []string       `json:"internal"`
+	}
+	_ = json.Unmarshal(b, &rep)
+	var vs []mc.Violation
+	seen := map[string]bool{}
+	for _, v := range rep.Violations {
+		if i := strings.Index(v.Key, ":invoice_amount:"); i > 0 {
+			k := "claim_paid_is_not_amount_plus_premium:taker_with_restarts:" + v.Key[i+len(":invoice_amount:"):]
+			if !seen[k] {
+				seen[k] = true
+				vs = append(vs, mc.Violation{Property: "C12", Key: k, Detail: v.Detail, History: v.History, Scenario: v.Scenario, Events: v.Events})
+			}
+		}
+	}
+	if len(rep.Internal) > 0 {
+		cov["internal"] = rep.Internal
+	}
+	cov["recovery_subcheck"] = map[string]any{"rule": "explicit-state BFS of both taker roles against the scripted maker with claim invoices of the agreed amount, +1 msat and -1 sat; blocks, time, restarts and a crash right after every durable write; at every claim payment attempt the invoice amount must be (amount + premium) * 1000 msat", "states": rep.States, "executions": rep.Executions}
+	return vs, cov
 }
